@@ -7,6 +7,8 @@ Explicit-state search over interleavings of issue / reply / error / expiry /
 unsolicited reply / connection loss for N concurrent calls on a real
 DBusClientConnection with a virtual clock.
 """
+import itertools
+
 from mcx import core, explore, fakes, refcodec as R
 
 PROP = 'C08'
@@ -488,6 +490,65 @@ def run_resend(first, second, timeout, chain):
     return viol
 
 
+def run_coalesced_disconnect(n, at, kinds):
+    """n calls answered in one read; the handler of answer number `at` asks
+    for the connection to be closed (disconnect()); the loss is reported
+    afterwards, as real transports do.  Answers that had arrived complete
+    their calls with their own content."""
+    viol = []
+    cw = fakes.ClientWorld()
+    try:
+        cw.sent()
+        conn = cw.conn
+        results = [[] for _ in range(n)]
+        serials = []
+        for i in range(n):
+            d = conn.callRemote('/o', 'M%d' % i, interface='a.b',
+                                destination='c.d', timeout=(5 if i % 2
+                                                            else None))
+
+            def done(r, i=i):
+                results[i].append(
+                    ('err', getattr(r.value, 'errName',
+                                    type(r.value).__name__))
+                    if hasattr(r, 'value') else ('ok', r))
+                if i == at:
+                    conn.disconnect()
+            d.addBoth(done)
+            serials.append(cw.sent()[0]['serial'])
+        data = b''
+        for i in range(n):
+            if kinds[i] == 'return':
+                data += R.encode_message(R.METHOD_RETURN, 800 + i,
+                                         {'reply_serial': serials[i]}, 's',
+                                         ['for-%d' % i])
+            else:
+                data += R.encode_message(R.ERROR, 800 + i,
+                                         {'reply_serial': serials[i],
+                                          'error_name': 'a.b.E%d' % i})
+        conn.dataReceived(data)
+        conn.connectionLost(fakes.lost_reason())
+        cw.clock.advance(1000)
+        want = [[('ok', 'for-%d' % i)] if kinds[i] == 'return' else
+                [('err', 'a.b.E%d' % i)] for i in range(n)]
+        if results != want:
+            viol.append(('coalesced-disconnect/%d-of-%d' % (at, n),
+                         '%d calls answered in one read (%r); the handler of '
+                         'answer %d called disconnect(): the calls completed '
+                         'with %r, the answers were %r'
+                         % (n, kinds, at, results, want)))
+        left = [c for c in cw.clock.getDelayedCalls() if c.active()]
+        if left:
+            viol.append(('coalesced-disconnect/timer-left',
+                         '%d timer(s) left' % len(left)))
+    except Exception as e:
+        viol.append(('coalesced-disconnect/raises-%s' % type(e).__name__,
+                     '%d calls, disconnect at %d: raised %r' % (n, at, e)))
+    finally:
+        cw.close()
+    return viol
+
+
 def _task_resend(_):
     res = core.Result()
     for first in ('return', 'error'):
@@ -503,10 +564,24 @@ def _task_resend(_):
                                       {'part': 'resend', 'args':
                                        [first, second, timeout, chain]},
                                       size=chain)
+    for n in (2, 3):
+        for at in range(n):
+            for kinds in itertools.product(('return', 'error'), repeat=n):
+                res.count('states')
+                res.count('transitions', n)
+                res.count('evaluations')
+                res.count('nontrivial')
+                for t, w in run_coalesced_disconnect(n, at, kinds):
+                    res.violation('%s/%s' % (PROP, t), w,
+                                  {'part': 'coalesced', 'args':
+                                   [n, at, list(kinds)]}, size=n)
     return res
 
 
 def replay(data):
+    if data.get('part') == 'coalesced':
+        return [('%s/%s' % (PROP, t), w)
+                for t, w in run_coalesced_disconnect(*data['args'])]
     if data.get('part') == 'resend':
         return [('%s/%s' % (PROP, t), w)
                 for t, w in run_resend(*data['args'])]
